@@ -169,7 +169,14 @@ fn run_in(case: &C11Case, exec: &mut Exec) -> Result<CaseInfo, Fail> {
     } else {
         want_matching.saturating_sub(2) // two registration frames come on top
     };
-    let p = prepare(exec, pre_total as u16, 0)?;
+    // (non-following, limited reads: every k-th pre-existing frame has expired and is still on
+    // disk when the first read meets it)
+    let expired_every = if case.lag.is_none() && case.follow.is_none() && case.limit.is_some() {
+        2 + (case.history_delta.rem_euclid(3) as u8)
+    } else {
+        0
+    };
+    let p = super::c03::prepare_with(exec, pre_total as u16, 0, expired_every)?;
     let scope = case.ctx.map(|c| p.ctxs[c as usize % 3]);
     let last_id = case
         .last_id
@@ -190,6 +197,22 @@ fn run_in(case: &C11Case, exec: &mut Exec) -> Result<CaseInfo, Fail> {
             .filter(|w| in_scope(w, scope) && last_id.map(|l| w.id128() > l).unwrap_or(true))
             .collect()
     };
+
+    // the synchronous read path first (it is the first read to meet the expired frames):
+    // exactly the first n live frames of the history
+    let mut sync_checked = false;
+    if expired_every > 0 && !case.tail {
+        let got = must("read_sync", exec.read_sync(last_id, opts.limit, scope))?;
+        let want: Vec<&String> = history.iter().take(opts.limit.unwrap_or(usize::MAX)).map(|w| &w.id).collect();
+        let got_ids: Vec<&String> = got.iter().map(|w| &w.id).collect();
+        if got_ids != want {
+            return Err(lim(format!(
+                "read_sync({opts:?}) over a history with expired, uncollected frames returned {got_ids:?}; the first {:?} live frames are {want:?}",
+                opts.limit
+            )));
+        }
+        sync_checked = true;
+    }
 
     // writers: start well after the read is in place
     let mut writers = vec![];
@@ -518,6 +541,7 @@ fn run_in(case: &C11Case, exec: &mut Exec) -> Result<CaseInfo, Fail> {
         (opts.last_id.is_some(), "last-id"),
         (scoped, "context-scoped"),
         (must_end, "stream-must-end"),
+        (sync_checked, "read_sync-first-over-expired-frames"),
     ] {
         if on {
             labels.push(name.to_string());
